@@ -285,6 +285,7 @@ void runInstance(Sink &s, uint64_t seed, long long k, const std::string &id) {
     for (int st = 0; st < 3; ++st) {
       // 1. clean run
       Circuit c0 = base;
+      s.op("fresh");
       CallResult clean = observedCall(s, id, c0, st, params, -1, true, false);
       s.count(std::string("clean_") + stageName(st) + (clean.outcome == "ok" ? "_ok" : "_throws"));
       s.count("callbacks_total", clean.callbacks);
@@ -293,6 +294,7 @@ void runInstance(Sink &s, uint64_t seed, long long k, const std::string &id) {
       // 2. every throw point
       for (int kk = 0; kk < N; ++kk) {
         Circuit c = base;
+        s.op("fresh");
         CallResult r = observedCall(s, id, c, st, params, kk, true, true);
         s.count("throw_points");
         std::string what = std::string("after ") + stageName(st) + " whose callback threw at index " + std::to_string(kk);
@@ -310,6 +312,7 @@ void runInstance(Sink &s, uint64_t seed, long long k, const std::string &id) {
     ColoquinteParameters bad = invalidParams(g, which);
     for (int st = 0; st < 3; ++st) {
       Circuit c = base;
+      s.op("fresh");
       std::string before = snap(c);
       CallResult r = observedCall(s, id, c, st, bad, -1, true, true);
       s.count("invalid_params_calls");
@@ -326,6 +329,7 @@ void runInstance(Sink &s, uint64_t seed, long long k, const std::string &id) {
     makeInfeasible(c, g);
     for (int st = 1; st < 3; ++st) {
       Circuit d = c;
+      s.op("fresh");
       std::string pl = placementOf(d), before = snap(d);
       CallResult r = observedCall(s, id, d, st, params, -1, true, true);
       if (r.outcome != "ok" && r.callbacks == 0) {
@@ -361,7 +365,7 @@ int main(int argc, char **argv) {
              "(must throw, circuit equal) and 3 non-structural ones; after each call all structural setters, "
              "Circuit::check() and a further placement call.  non-trivial = instance that executed at least one "
              "placement call ending by an exception; distinct by hash of the circuit";
-  long long n = a.thorough() ? 1500 : (a.search() ? 400 : 120);
+  long long n = a.thorough() ? 3000 : (a.search() ? 600 : 300);
   std::vector<std::pair<uint64_t, long long>> ks;  // (seed, k)
   if (!a.replay.empty()) {
     // replay file: JSON written by check.py; its input text contains "seed=<s> k=<k>"
